@@ -28,8 +28,17 @@ def _all_lexers():
     return list(get_all_lexers())
 
 
+_LFN = {}
+
+
 def language_file_names(stem="unit"):
     """[(file name, language name, [other lexer names claiming the same pattern])]"""
+    if stem not in _LFN:
+        _LFN[stem] = _language_file_names(stem)
+    return list(_LFN[stem])
+
+
+def _language_file_names(stem):
     names = set(supported_lexer_names())
     lexers = _all_lexers()
     out = []
